@@ -428,6 +428,10 @@ def plan(tier):
     mid = [("IU2", 11, 2, (3, 4))] if tier == "quick" else [("IU2", 11, 2, (2, 3, 4, 5, 8)), ("C*8", 13, 2, (2, 3, 4, 5, 6, 7, 8)), ("IU2", 16, 1, (4, 8))]
     # widths at which the pixel payload is exactly as long as the record prefix (layout-detection code may confuse the two)
     mid += [("IU2", 5, 96, (2, 3)), ("C*8", 5, 68, (2, 6))] if tier == "quick" else [("IU2", 5, 96, (1, 2, 3, 6)), ("C*8", 5, 68, (1, 2, 3, 6)), ("IU2", 6, 48, (2, 4)), ("C*8", 6, 136, (2, 4))]
+    # hundreds of line groups (group numbers beyond 256): ints, strided and windowed slices, a few index arrays
+    for tc, L, P, rpc in (("IU2", 700, 2, 2), ("C*8", 640, 1, 2)) if tier == "quick" else (("IU2", 700, 2, 2), ("C*8", 640, 1, 2), ("IU2", 1200, 1, 4), ("IU2", 2100, 1, 3)):
+        rows = [["i", k] for k in (0, 1, L // 2, L - 2, L - 1, -1)] + [["s", a, b, st] for a in (None, 1, 500, L - 20) for b in (None, L - 1, 600) for st in (None, 2, 3, -1, -2, 7)] + [["a", [L - 1, 0]], ["a", [513, 514]], ["a", [600, 520]]]
+        cases += list(batches(tc, L, P, rpc, [["isel", r, None] for r in rows] + [["isel", r, ["i", 0]] for r in rows[::4]], size=200))
     for tc, L, P, rpcs in mid:
         rows = ints(L) + slices(L, steps=(None, 1, -1, 2, -2, 3, -3, 4, -4, 5, -5, 7, -7)) + arrays(L) + (masks(L) if L <= 13 else [])
         ops = [["isel", r, None] for r in rows] + [["isel", r, ["i", P - 1]] for r in rows[:: 7]]
